@@ -70,6 +70,7 @@ def run(facts, rep, tier, ctx):
         rep.floor("read obligations (%s)" % w.tag, n, 6)
         n = h.writer_rules(rep, tag + "R04.1", tag + "R14.5", tag + "R19.2")
         rep.floor("writer obligations (%s)" % w.tag, n, 5)
+        h.handle_surface_rules(rep, tag + "R14.7")
         n = handed_out(facts, rep, w, D)
         rep.floor("handle hand-out sites (%s)" % w.tag, n, 5)
     ws = World(facts, False)
@@ -77,6 +78,13 @@ def run(facts, rep, tier, ctx):
     # append positions at End(0); create starts empty (shared with C04)
     from . import c04
     c04.session_start_rules(facts, rep, ws, D, "R14.5s")
+    # through the overlay an append handle starts after the bytes the overlay showed: the copy-up is a complete byte copy
+    # (copy_file of the resolved file) made before the upper layer's append handle is opened
+    from . import c09
+    for asyncw in (False, True):
+        w_ = World(facts, asyncw)
+        if w_.present():
+            c09.table_u(facts, rep, w_, ("R14.6/" if asyncw else "") + "R14.5u", only=("append_file",))
     # no panics in handle code
     k = c13.sites_for(facts, rep, ctx["V"], "R14.p", lambda r: bool(r.impl) and ("ReadableFile" in r.impl["self_ty"] or "WritableFile" in r.impl["self_ty"]))
     rep.floor("panic sites in handle code", k, 10)
